@@ -71,6 +71,7 @@ def _case(draw, kinds=("sim", "scan", "accumulate", "growth")):
         "tol": draw(st.sampled_from([1e-4, 1e-5, 1e-6, 1e-7, 1e-8])),
         "rel_norm": draw(st.booleans()),
         "y0": draw(st.one_of(st.none(), st.lists(st.integers(0, 80).map(lambda i: i / 4), min_size=3, max_size=3))),
+        "pre_run": draw(st.sampled_from([None, None, 0.5, 3.0])),
     }
     if kind == "scan":
         # scan one rate constant over 2-4 values, some of which (0.0 for a degradation) remove the steady state
@@ -166,14 +167,19 @@ def examine(case: dict, ctx) -> Outcome:
             m.update_parameters({f"kc{i}_{j}": 0.0 for i, j, _ in lin2["conv"] if i == 0})
         y0 = None if case["y0"] is None else dict(zip(vn, case["y0"][:n]))
         sim = Simulator(m, y0=y0)
+        if case.get("pre_run"):
+            # an ordinary, successful simulation first: the search then continues from there, and a failed
+            # search must still be reported as a failure
+            sim.simulate(case["pre_run"], steps=3)
+            key.append("pre_run")
         r = sim.simulate_to_steady_state(tolerance=tol, rel_norm=rel).get_result()
         v = r.value
-        out.classes = [kind, "rel_norm" if rel else "abs_norm", "user_y0" if y0 else "default_y0", f"tol={tol:g}"]
+        out.classes = [kind, "rel_norm" if rel else "abs_norm", "user_y0" if y0 else "default_y0", f"tol={tol:g}"] + (["pre_run"] if case.get("pre_run") else [])
         if kind != "sim":
             out.nontrivial = key
             if not isinstance(v, Exception):
                 got = v.variables.iloc[-1].to_dict()
-                out.bad(f"{kind}:{'rel' if rel else 'abs'}:state-presented-as-steady", got=got, time=float(v.variables.index[-1]))
+                out.bad(f"{kind}:{'rel' if rel else 'abs'}:state-presented-as-steady{':after-pre-run' if case.get('pre_run') else ''}", got=got, time=float(v.variables.index[-1]))
             return out
         A, b = linear.A_b(lin, p)
         tau = _relax_time(A)
